@@ -360,6 +360,9 @@ impl Target {
                     }
                 };
 
+                // The constant describes the value assigned at `path`: it is the value of the
+                // variable itself only when the whole variable is assigned.
+                let value = if path.is_root() { value } else { None };
                 let details = Details { type_def, value };
                 state.local.insert_variable(ident.clone(), details);
             }
